@@ -559,9 +559,16 @@ class PartitionedArray(object):
                 return getattr(self.toContent(), name)(axis, mask, keepdims)
             else:
                 return getattr(self.toContent(), name)(axis, mask, keepdims, initial)
-        else:
+        elif initial is None:
             return self.replace_partitions(
                 [getattr(x, name)(axis, mask, keepdims) for x in self.partitions]
+            )
+        else:
+            return self.replace_partitions(
+                [
+                    getattr(x, name)(axis, mask, keepdims, initial)
+                    for x in self.partitions
+                ]
             )
 
     def count(self, axis, mask, keepdims):
